@@ -53,9 +53,26 @@ def oracle(cases, mlines, ilines):
     for a in cases:
         if not hasattr(a, "twin"):
             continue
+        tree = {}
         for step in range(a.nops):
             la = ilines.get(("r", a.name, step))
             lb = ilines.get(("r", a.twin, step))
+            toks = a.ops[step].split(" ")
+            if toks[0] == "snap":
+                t = spec.tree_of_snapshot(lb)
+                if t is not None:
+                    tree = t
+            if toks[0] in ("copyfile", "movefile", "copydir", "movedir"):
+                # left unspecified by C01/C02: a transfer whose source has the wrong type or that goes into the
+                # source's own subtree - the two backends may part ways here, the rest of the pair is not compared
+                k1, src = spec.resolve_spec(toks[1])
+                k2, dst = spec.resolve_spec(toks[2])
+                if src is not None and dst is not None:
+                    is_dir = tree.get(src) == "d"
+                    is_file = src in tree and not is_dir
+                    if (toks[0] in ("copyfile", "movefile") and is_dir) or (toks[0] in ("copydir", "movedir") and is_file) \
+                            or dst[:len(src)] == src:
+                        break
             va = view(la)
             vb = view(lb)
             if va != vb:
